@@ -162,13 +162,13 @@ class Aspire:
         if evaluate:
             if log_prior is None:
                 logger.info("Evaluating log prior")
-                samples.log_prior = samples.xp.to_device(
-                    self.log_prior(samples), samples.device
+                samples.log_prior = samples.array_to_namespace(
+                    self.log_prior(samples)
                 )
             if log_likelihood is None:
                 logger.info("Evaluating log likelihood")
-                samples.log_likelihood = samples.xp.to_device(
-                    self.log_likelihood(samples), samples.device
+                samples.log_likelihood = samples.array_to_namespace(
+                    self.log_likelihood(samples)
                 )
             samples.compute_weights()
         return samples
